@@ -293,6 +293,16 @@ func typeMembers(tier string, cfg gen.Config) []member {
 			out = append(out, member{name: fmt.Sprintf("goJSONSchema.type %s required=%v nillable=%v", ov.typ, req, ov.nillable), cfg: cfg, root: root})
 		}
 	}
+	// a referring node that also states the target's type (or a description) next to the $ref: the reference still decides the Go type
+	for _, sib := range []string{"type", "description"} {
+		for _, req := range []bool{true, false} {
+			od := &fam.Spec{Kind: "object", Ref: "$defs", RefSibling: sib, Props: []*fam.Prop{{Label: "q", Spec: &fam.Spec{Kind: "integer"}, Required: true}}}
+			sd := &fam.Spec{Kind: "string", Ref: "$defs", RefSibling: sib, Kw: []string{"minLength"}}
+			out = append(out, member{name: fmt.Sprintf("reference with a sibling %s required=%v", sib, req), cfg: cfg, root: &fam.Spec{Kind: "object", Props: []*fam.Prop{
+				{Label: "o", Spec: od, Required: req}, {Label: "s", Spec: sd, Required: req},
+				{Label: "xs", Spec: &fam.Spec{Kind: "array", Items: &fam.Spec{Kind: "object", Ref: "$defs", RefSibling: sib, Props: []*fam.Prop{{Label: "w", Spec: &fam.Spec{Kind: "boolean"}}}}}}}}})
+		}
+	}
 	for _, sp := range specs {
 		for _, pos := range positions {
 			if sp.Kind == "object" && len(sp.Props) == 0 && pos[:3] == "def" {
@@ -455,6 +465,12 @@ func anyOfMembers(tier string, cfg gen.Config) []member {
 			// an object branch next to a primitive branch (valid JSON Schema; the merged type must at least compile)
 			out = append(out, member{name: "anyOf mixing an object branch and a primitive branch", cfg: cfg, tag: "anyOf with an object and a primitive branch",
 				root: &fam.Spec{Kind: "object", Props: []*fam.Prop{{Label: "u", Spec: &fam.Spec{Kind: "object", AnyOf: []*fam.Spec{branch(0), {Kind: "string"}}}}}}})
+			// a branch that has properties AND collects additional properties (its unmarshaler uses reflect/strings/mapstructure)
+			for _, ap := range []string{"true", "string"} {
+				apb := &fam.Spec{Kind: "object", AddProps: ap, Props: []*fam.Prop{{Label: "k", Spec: &fam.Spec{Kind: "string"}, Required: true}}}
+				out = append(out, member{name: "anyOf with a branch that has properties and additionalProperties=" + ap, cfg: cfg,
+					root: &fam.Spec{Kind: "object", Props: []*fam.Prop{{Label: "u", Spec: &fam.Spec{Kind: "object", AnyOf: []*fam.Spec{apb, branch(1)}}}}}})
+			}
 			// a primitive-typed branch next to a branch that states no type: the union is not a string (or a boolean); it is
 			// represented as interface{} and nothing is validated, so every document one branch admits is accepted
 			out = append(out, member{name: "anyOf of a typed primitive branch and an untyped branch", cfg: cfg, root: &fam.Spec{Kind: "object", Props: []*fam.Prop{{Label: "u", Required: true,
